@@ -251,6 +251,32 @@ def arm_Projection(ctx, ip, arm):
         nexts = [t for x, t in arm.calls if t["callee"] == "std::iter::Iterator::next"]
         it_ok = len(nexts) == 1 and all(i[0] == "iter" and i[1][0] == "view" and ip.is_res({i[1][2]}, "Projection.lhs") for i in ip.o.of_operand(nexts[0]["args"][0]))
         chk(ctx, ip, arm, "all-elements-in-order", it_ok, "the loop visits every element of the array in order (plain iterator, no adapter)")
+    elif len(arr) == 1 and not pushes and not others:
+        # the same as an iterator chain: left.iter().filter_map(|e| .. interpret(e, rhs, ctx) .. ).collect()
+        from ..collected import ELEM, describe_vector
+        each = drops = order = True
+        for t in arr[0][1]:
+            if not (t[0] == "agg" and t[1] == V + "::Array"):
+                each = False
+                continue
+            d = describe_vector(ip.lib, b, ip.o, set(t[2][0]))
+            if d is None or len(d) != 1:
+                each = False
+                continue
+            bd = d[0]
+            order = order and bool(bd.source) and all(sx[0] == "view" and sx[1] == "array" and ip.is_res({sx[2]}, "Projection.lhs") for sx in bd.source)
+
+            def is_eval(v):
+                return v[0] == "call" and v[1] == INTERP and set(v[2][0]) == {ELEM} and set(v[2][1]) == {("field", NODE, "Projection.rhs")}
+            each = each and bool(bd.value) and all(is_eval(v) for v in bd.value)
+            if bd.every_item:
+                drops = False       # nulls would be kept
+            else:
+                dw = bd.dropped_when
+                drops = drops and dw is not None and len(dw) >= 1 and all(c == "variable::Variable::is_null" and len(a) == 1 and a[0] and all(is_eval(v) for v in a[0]) for c, a in dw)
+        chk(ctx, ip, arm, "collects-per-element", each, "the result is the array of the right-hand side's results, one evaluation per element, in order")
+        chk(ctx, ip, arm, "drops-nulls", each and drops, "an element's result is kept exactly when it is not null (is_null test on that very result)")
+        chk(ctx, ip, arm, "all-elements-in-order", order, "every element of the array is visited in order (plain iterator, no reordering adapter)")
     else:
         chk(ctx, ip, arm, "collects-per-element", False, f"one result array, one push site, no other mutation (arrays {len(arr)}, pushes {len(pushes)}, other {others})")
 
